@@ -63,6 +63,9 @@ OBLIGATIONS = [
     "SkVerif.C16.predict_tie_not_equivariant_witness",
     "SkVerif.C16.union_container_invariant_partial",
     "SkVerif.C16.union_container_witness",
+    "SkVerif.C16.union_default_labels_rowwise_partial",
+    "SkVerif.C16.union_label_misalignment_witness",
+    "SkVerif.C16.union_single_instance_two_rows_witness",
 ]
 TRUSTED = [
     "hand-written model SkVerif/Model/C16RowWise.lean of the generic shapes (row loops, member-major ensembles, "
@@ -1499,7 +1502,7 @@ def gen_cases(tier, rng):
     keys = sorted(reg)
     fast = [k for k in keys if not reg[k]["slow"]]
     slow = [k for k in keys if reg[k]["slow"]]
-    reps = 2 if tier == "quick" else 10
+    reps = 4 if tier == "quick" else 30
     rot = rng.randrange(1000)
     for k in fast:
         ps = reg[k]["params"]
@@ -1507,17 +1510,18 @@ def gen_cases(tier, rng):
             # parameter sets are cycled (seed-rotated), ragged-capable estimators get a ragged panel every other case
             cases.append(gen_meta(rng, k, tier, p=ps[(rot + r) % len(ps)], ragged=(r % 2 == 0)))
     for k in slow:
-        for _ in range(1 if tier == "quick" else 4):
+        for _ in range(2 if tier == "quick" else 10):
             cases.append(gen_meta(rng, k, tier))
     # malformed stream: empty selection, multivariate data to a univariate-only estimator
-    mal = rng.sample(fast, 6 if tier == "quick" else 16)
+    mal = rng.sample(fast, 8 if tier == "quick" else 24)
     for k in mal:
         cases.append(gen_meta(rng, k, tier, malformed="empty"))
-    uni = [k for k in fast if reg[k]["uni"] and not reg[k]["mv"] and reg[k]["src"] is not None]
+    uni = [k for k in fast if reg[k]["uni"] and not reg[k]["mv"] and reg[k]["src"] is not None
+           and (static_analyse(reg[k]["src"][0], reg[k]["src"][1], METHS[reg[k]["kind"]][0]).get("cfg") or (None,))[0] is True]
     for k in rng.sample(uni, 6 if tier == "quick" else len(uni)):
         cases.append(gen_meta(rng, k, tier, malformed="multivariate"))
     for k in ENS:
-        for _ in range(1 if tier == "quick" else 4):
+        for _ in range(2 if tier == "quick" else 10):
             c = gen_meta(rng, k, tier)
             cases.append({"op": "ens", "est": k, "p": c["p"], "meth": "predict" if k == "tsfr" else "predict_proba",
                           "xf": c["xf"], "y": c["y"], "xa": c["xa"]})
